@@ -606,7 +606,7 @@ func TestC04Variations(t *testing.T) {
 		doc := ttlvref.WriteElemXML(e)
 		if rapid.Bool().Draw(rt, "reformat") {
 			// the same document in another, equivalent XML serialisation (leaves not self-closing, white space and
-			// comments inside and between elements, attribute order)
+			// comments inside and between elements, attribute order, type="Structure" spelt out)
 			var b bytes.Buffer
 			writeElemXMLVariant(rt, &b, e, 0)
 			doc = b.Bytes()
@@ -746,6 +746,9 @@ func writeElemXMLVariant(rt *rapid.T, b *bytes.Buffer, e *ttlvref.Elem, depth in
 	}
 	if e.Type != "" {
 		attrs = append(attrs, [2]string{"type", e.Type})
+	} else if rapid.IntRange(0, 3).Draw(rt, "explicit-structure-type") == 0 {
+		// the type attribute of a structure is optional (Structure is the default): some writers spell it out
+		attrs = append(attrs, [2]string{"type", "Structure"})
 	}
 	if e.HasValue {
 		attrs = append(attrs, [2]string{"value", e.Value})
